@@ -191,5 +191,6 @@ def _run(total_by_shape: dict, blocks: int):
 
 def subs(tier: str):
     q = tier == "quick"
-    totals = {(2, 2): 20000, (2, 3): 20000, (3, 2): 20000, (3, 3): 64000} if q else {(2, 2): 400000, (2, 3): 400000, (3, 2): 400000, (3, 3): 2000000}
+    totals = ({(2, 2): 20000, (2, 3): 20000, (3, 2): 20000, (3, 3): 64000} if q else
+              {(2, 2): 400000, (2, 3): 400000, (3, 2): 400000, (3, 3): 2000000, (2, 4): 400000, (4, 2): 400000, (3, 4): 1200000, (4, 3): 1200000})
     return [Sub("wilson-uniform", check, "custom", run=_run(totals, 16 if q else 32))]
